@@ -14,9 +14,12 @@ CHECKS = {
         text="Static: only the writer/reader LAYOUT agreement of the pack index formats and the trailer is decided: ordered "
              "writer sections (format/width/byte order) vs reader table offsets folded to linear forms, the 2**31 "
              "large-offset threshold/mask/scale on both sides (a branch no test reaches: it needs offsets >= 2 GiB), trailer "
-             "slices, and that Pack.data never keeps data that failed its check. Round-trip equality, delta resolution and "
-             "varint arithmetic are NOT decided.",
-        technique="writer/reader table extraction with symbolic (linear) offset folding; typestate on the data cache",
+             "slices, that Pack.data never keeps data that failed its check, the object-header bit-field table and the "
+             "OFS_DELTA offset-varint form on both sides (writer vs decoders), and the direction of OFS_DELTA distances: the "
+             "writer stores own offset - base offset only for a base already written, every reader subtracts. Round-trip "
+             "equality, delta chains and zlib framing are NOT decided.",
+        technique="writer/reader table extraction with symbolic (linear) offset folding; bit-field/varint form agreement; "
+                  "sibling agreement on OFS_DELTA direction; typestate on the data cache",
         ref="3 C02"),
     "C03": dict(
         text="Static: safety half of both delta decoders and constant agreement of both encoders: bound test dominates every "
@@ -35,11 +38,12 @@ CHECKS = {
         technique="must-precede, release-on-exit typestate, never-before, sibling cross-check on statement CFG",
         ref="3 C04"),
     "C05": dict(
-        text="Static, NARROW: only two structural necessary conditions of the second sentence are decided - wire-supplied "
-             "wants are dominated by a membership test against the advertised set, and a thin pack is completed before it "
-             "is installed. Whether the transferred object set is the complete and minimal closure is a relation over "
+        text="Static, NARROW: structural necessary conditions only - wire-supplied "
+             "wants are dominated by a membership test against the advertised set, a thin pack is completed before it "
+             "is installed, and MissingObjectFinder expands every edge kind (commit->tree, tree->entries except gitlinks, "
+             "tag->object) and marks objects done when handed out. Whether the transferred object set is the complete and minimal closure is a relation over "
              "histories and is NOT decided by this family.",
-        technique="sanitizer dominance (membership test) and must-precede on statement CFG",
+        technique="sanitizer dominance (membership test), must-precede on statement CFG, edge-kind exhaustiveness",
         ref="3 C05"),
     "C11": dict(
         text="Static: index entry layout agreement (struct formats, read size == calcsize, padding, extended flags) between "
@@ -84,9 +88,12 @@ CHECKS = {
         text="Static: taint analysis with implicit flows and origin tracking over graph.py and walk.py: no continue/break/"
              "return/skipped push of a traversal is control dependent on a test reading a commit timestamp (walk.py: unless "
              "the originating test is guarded by the since/until/exclusion option the statement exempts). Quantifies over "
-             "all clocks at once, where a test samples a few timestamp assignments. Does not decide that the LCA flag "
-             "propagation is right for every exploration order.",
-        technique="taint with implicit flows (control dependence) and origin tracking, field-sensitive access paths",
+             "all clocks at once, where a test samples a few timestamp assignments. Plus: merge-base candidates pass the "
+             "redundancy filter on every path, and every timestamp comparison in walk.py that prunes does so only on a "
+             "strict inequality (ties keep walking). Does not decide that the LCA flag propagation is right for every "
+             "exploration order.",
+        technique="taint with implicit flows (control dependence) and origin tracking, field-sensitive access paths; "
+                  "must-pass-through; ordering (tie) rule on comparisons",
         ref="3 C13"),
     "C16": dict(
         text="Static: partial evaluation of every backend's set_if_equals/remove_if_equals under the fact old_ref is None "
